@@ -222,6 +222,15 @@ class BlockingOracle(FOracle):
                     self.v(nid, self.sig(f, nid, "wrong_decision", "edge"),
                            "%s at t=%s: probes selected %s but pushes went to %s" % (nid, now, first_true, used))
             elif kind == "Source":
+                pol = ns.get("out_sel", "FIRST_AVAILABLE")
+                if isinstance(pol, dict) and "const" in pol:
+                    # a constant index selects ONE out-edge (0 included): the item goes there or is dropped, never elsewhere
+                    wrong = [p for p in pushes_now if p[3] != pol["const"]]
+                    if wrong:
+                        self.v(nid, self.sig(f, nid, "wrong_decision", "edge"),
+                               "non-blocking %s with the constant out-edge index %d pushed %s into out-edge %d (%s) at t=%s" % (
+                                   nid, pol["const"], wrong[0][2].id, wrong[0][3], wrong[0][4], now))
+                        continue
                 src = f.sources.get((nid, "iat"))
                 # generation instants: consult c_j + value (constant: the kernel's own accumulation t += v,
                 # which is where a source that never waits generates)
